@@ -206,9 +206,9 @@ static void ph_part(void *u) {
 }
 int main(int argc, char **argv) {
     mc_init(argc, argv);
-    int fullmax = mc_thorough ? 5 : 4, partmax = mc_thorough ? 8 : 7;
+    int fullmax = mc_thorough ? 5 : 4, partmax = 8;
     g_fulldepth = mc_thorough ? 5 : 4;
-    g_finedepth = mc_thorough ? 5 : 4;
+    g_finedepth = 5;
     for (int r = 0; r <= fullmax; r++) dom_full(r, &g_full);
     for (int r = 0; r <= 15; r++) dom_fine(r, mc_thorough ? 1 : 2, &g_fine);
     uv_sortuniq(&g_fine);
